@@ -163,6 +163,27 @@ int main(int argc, char** argv) {
     if (!coh || !coh2) fail14(*normal[i].first, "test() and exec() disagree on the input of vector#" + std::to_string(w.idx));
     else if (a != b) fail14(*normal[i].first, "answer depends on the execution mode for the input of vector#" + std::to_string(w.idx) + ": shortcut " + a.substr(0, 160) + " regexp " + b.substr(0, 160));
   }
+  // C15 "shortcuts for 'simple' values never change the outcome": canonicalize_hostname's fast path (simple bytes and
+  // not IPv4-shaped) against the full path it abbreviates (dummy https URL + hostname setter), on dotted combinations of
+  // labels that look like names, decimal / octal / hex numbers, empty labels and hyphens, with and without a final dot
+  {
+    static const char* labels[] = {"example", "a", "-", "0", "1", "09", "0x10", "256", "x1", "0x", "4294967296", "com", "1e3", ""};
+    const int NL = sizeof labels / sizeof labels[0];
+    Vec dummy; dummy.idx = 200000;
+    auto one = [&](const std::string& h) {
+      auto fast = ada::url_pattern_helpers::canonicalize_hostname(h);
+      auto url = ada::parse<ada::url_aggregator>("https://dummy.test", nullptr);
+      bool ok = !h.empty() ? url->set_hostname(h) : true;
+      std::string slow = h.empty() ? std::string() : std::string(url->get_hostname());
+      c15++;
+      if (bool(fast) != ok) fail15(dummy, "canonicalize_hostname('" + h + "') " + (fast ? "succeeds" : "fails") + " but the URL parser's hostname state " + (ok ? "accepts it" : "rejects it"));
+      else if (fast && *fast != slow) fail15(dummy, "canonicalize_hostname('" + h + "') = '" + *fast + "' but the URL parser gives '" + slow + "'");
+    };
+    for (int a = 0; a < NL; a++) { one(labels[a]); one(std::string(labels[a]) + ".");
+      for (int b = 0; b < NL; b++) { std::string ab = std::string(labels[a]) + "." + labels[b]; one(ab); one(ab + ".");
+        for (int c = 0; c < NL; c++) { std::string abc = ab + "." + labels[c]; one(abc); one(abc + ".");
+          for (int d = 0; d < NL; d += 2) one(abc + "." + labels[d]); } } }
+  }
   printf("UPVEC C15 runs=%lu bad=%lu\nUPVEC C14 runs=%lu bad=%lu\n", c15, c15bad, c14, c14bad);
   return 0;
 }
